@@ -1,10 +1,10 @@
 package main
 
 import (
-	"go/token"
 	"fmt"
 	"go/ast"
 	"go/constant"
+	"go/token"
 	"go/types"
 	"sort"
 	"strings"
@@ -206,6 +206,38 @@ func checkC19(p *Prog, r *Report) {
 			r.Check(okOrder >= 2, kp("WIRE", "app.New#handlers-after-manager+configurator"), "upgrade handlers are created after the module manager and the configurator exist (they capture both)", p.Pos(callI.Pos()),
 				"both assignments dominate the call", "setupUpgradeHandlers runs before app.ModuleManager / app.configurator are assigned: handlers would capture nil")
 		}
+	}
+	// module versions are recorded when the chain starts: InitChainer stores the module manager's version map through the upgrade
+	// keeper before the modules' InitGenesis runs, on every path. (Without it the first upgrade sees an empty version map and
+	// RunMigrations re-runs InitGenesis of every module on the populated chain.) x/upgrade's own InitGenesis stores the map only
+	// when the genesis file carries an upgrade section, so SetInitVersionMap is not a substitute.
+	if ic := p.Method(Rel("app"), "App", "InitChainer"); ic == nil {
+		r.Fail(kp("WIRE", "app.InitChainer#anchor"), "anchor", "app/app.go", "InitChainer not found")
+	} else {
+		host := ic
+		if d := p.delegateOf(ic); d != nil {
+			host = d
+		}
+		io := NewOrigin(p, host)
+		var setVM, initGen ssa.Instruction
+		okArg := false
+		for _, cs := range callSites(host) {
+			switch {
+			case strings.HasSuffix(cs.Name, "x/upgrade/keeper.Keeper).SetModuleVersionMap"):
+				setVM = cs.Instr.(ssa.Instruction)
+				args := cs.Instr.Common().Args
+				if len(args) >= 3 {
+					t := io.Of(args[2])
+					okArg = t.Op == "call" && strings.HasSuffix(t.Name, "module.Manager).GetVersionMap")
+				}
+			case strings.HasSuffix(cs.Name, "module.Manager).InitGenesis"):
+				initGen = cs.Instr.(ssa.Instruction)
+			}
+		}
+		okDom := setVM != nil && initGen != nil && io.dominates(setVM, initGen)
+		r.Check(okDom && okArg, kp("WIRE", "app.InitChainer#records-module-versions"), "a new chain records the consensus version of every module before the modules are initialised (the upgrade reads them back as fromVM)", p.FnPos(host),
+			"UpgradeKeeper.SetModuleVersionMap(ctx, ModuleManager.GetVersionMap()) dominates ModuleManager.InitGenesis",
+			fmt.Sprintf("InitChainer does not store the module manager's version map before InitGenesis (SetModuleVersionMap call found=%v, argument is GetVersionMap()=%v, dominates InitGenesis=%v): a chain started from a genesis without an upgrade section has an empty version map, and the first upgrade re-initialises every module on populated stores", setVM != nil, okArg, okDom))
 	}
 	// the store loader uses the matching descriptor's StoreUpgrades, the handler loop calls CreateUpgradeHandler of each element
 	if fn := p.Method(Rel("app"), "App", "setupUpgradeHandlers"); fn != nil {
